@@ -25,7 +25,7 @@ BOUNDS_ALLOW = [
 class C01(verif.Spec):
     prop = "C01"
     comp = "dec"
-    lean_modules = ["ZvbiModel.Props.C01"]
+    lean_modules = ["ZvbiModel.Props.C01", "ZvbiModel.Props.C01Ttx"]
     harness = "dec_harness"
     timeout_per_case = 20.0
     partial_note = ("proved: the enumerated safety obligations on the component models (see Props/C01.lean); "
